@@ -735,6 +735,35 @@ def c20(work, v, tier):
                     gens=gens, rands=[dict(module="Check_Reveal", fn="reveal", n=3000 if q else 30000, depth=3 if q else 4)])
 
 
+@check("C04")
+def c04(work, v, tier):
+    q = tier == "quick"
+    fams = ["c04d1", "c04d2", "c04d3", "c04fold"]
+    return sm_check(work, v, "C04", tier, [], [], [],
+                    ["RoundTrip on every generated tree: Decode(UnmarshalSpec(t)) is well formed and equals Struct(t) (the design itself has the property)"],
+                    "codec round trip against spec/Codec.tla: for all trees of depth <= 3, width <= 2 over the five kinds (empty ones included), Conditions whose "
+                    "expression is a primitive / Stack / Condition, primitive and nil leaves: Unmarshal() must equal UnmarshalSpec(t); the result is marshalled "
+                    "into a zero Stack (both call forms); the reconstruction is walked structurally (kinds, order, leaf types and values, Condition parts) and must "
+                    "equal Struct(t); the second Unmarshal must be deeply equal (labels case-insensitively) and IsEqual must succeed both ways when no fold is involved. "
+                    "Random deeper trees are validated by Check_Codec.tla",
+                    gens=[dict(module="Gen_Codec", family=f, fn="codec") for f in fams],
+                    rands=[dict(module="Check_Codec", fn="codec", n=3000 if q else 30000, depth=3 if q else 4)])
+
+
+@check("C16")
+def c16(work, v, tier):
+    q = tier == "quick"
+    return sm_check(work, v, "C16", tier, [], [], [],
+                    ["Decode is total over the junk universe; for well-formed input the outcome is fully determined, for malformed input the specification leaves "
+                     "error / content open but requires: returns normally, and an error or an initialised usable receiver"],
+                    "Marshal robustness against spec/Codec.tla: junk []any trees (labels in three casings, unknown and empty labels, numbers, nil, typed nil pointers, "
+                    "zero and ready-made Stacks / Conditions, valid / invalid / user / empty-text / nil operators, CONDITION rows malformed in every field, empty and "
+                    "nested envelopes) x both call forms x zero and initialised receivers; no panic, 'error or initialised receiver', String / Unmarshal / IsEqual usable "
+                    "afterwards; for well-formed input the decoded structure and the gained element are compared exactly",
+                    gens=[dict(module="Gen_Codec", family=f, fn="codec") for f in ["c16flat", "c16nest"]],
+                    rands=[dict(module="Check_Codec", fn="codec", n=3000 if q else 30000, depth=3 if q else 4, salt=5)])
+
+
 def replay(prop, path, work):
     harness = lib.build_harness(work)
     rc, out, _ = lib.run([harness, "replay", path], timeout=300)
